@@ -88,6 +88,19 @@ def _ag_job(job):
                   else call(athlib.wma_age_factor, g, lastage, ev, year=int(tbl)))
     for a2 in ages2:
         age = a2 / 2.0 if a2 % 2 else a2 // 2
+        if a2 % 7 == 3:
+            # calls the graders refuse, results discarded (rule 4: a refusal must leave nothing behind): unknown gender,
+            # unknown event, junk age / performance - on the same shared grader, between the recorded calls
+            yr_ = 2023 if tbl == 'athlon' else int(tbl)
+            call(athlib.wma_age_factor, 'x', age, ev, year=yr_)
+            call(athlib.wma_age_factor, g, age, 'NOSUCH', year=yr_)
+            call(athlib.wma_age_factor, g, 'old', ev, year=yr_)
+            call(athlib.wma_world_best, 'x', ev, year=yr_)
+            call(athlib.wma_world_best, g, 'NOSUCH', year=yr_)
+            call(athlib.wma_age_grade, g, age, ev, 'fast', year=yr_)
+            call(athlib.wma_age_grade, 'x', age, ev, '10.0', year=yr_)
+            call(athlib.wma_athlon_age_factor, 'x', age, ev)
+            call(athlib.wma_athlon_age_factor, g, age, 'NOSUCH')
         if tbl == 'athlon':
             f = call(athlib.wma_athlon_age_factor, g, age, ev)
             b = None
